@@ -6,7 +6,8 @@ ID = "C07"
 LEAN_MODULES = ["CatiiProps.C07"]
 RULE = ("same histories as C06; after EVERY step the library's validate(True) plus the range / arity / non-emptiness / "
         "dtype / int-coordinate conditions it does not check, and the derived facts (abscissae = values occurring, "
-        "sparsity); the model's decidable wf predicate is evaluated on the same result. Non-trivial and distinct as C06")
+        "sparsity); the model's decidable wf predicate is evaluated on the same result; plus long sparse many-valued inputs (300-900 rows) "
+        "through from_array / collapsed / filtered, which select the per-row scan strategy. Non-trivial and distinct as C06")
 ASSUMPTIONS = ["entry-wise set updates are generated within their documented use (union only adds rows currently common)"]
 
 
@@ -40,6 +41,39 @@ def run(ctx):
             ctx.hit("op:from_array")
             for p in I.wf_problems(ix2):
                 ctx.oracle_fail("from_array result: " + p, {"array": a.tolist(), "op": "from_array"}, cls="C07-from-array")
+        # long, sparse, many-valued inputs: the per-row scan strategy of from_array (also reached by collapsed,
+        # filtered and append through their final from_array / shift_common)
+        import gen_cube as G
+        for _ in range(ctx.n(12)):
+            N = ctx.rng.choice([300, 500, 900])
+            ncol = ctx.rng.choice([None, 1, 2, 3])
+            nvals = ctx.rng.randrange(5, 9)
+            vals = [0] + ctx.rng.sample(range(1, 40), nvals - 1)
+            shape = (N,) if ncol is None else (N, ncol)
+            n = int(np.prod(shape))
+            a = np.zeros(n, dtype=np.int64)
+            for pos in ctx.rng.sample(range(n), max(2, n // ctx.rng.choice([30, 60, 120]))):
+                a[pos] = ctx.rng.choice(vals[1:])
+            a = a.reshape(shape)
+            ctx.case({"from_array_scan": {"shape": list(shape), "distinct": vals}})
+            ctx.hit("op:from_array_scan")
+            big = iindex.from_array(a)
+            for p in I.wf_problems(big):
+                ctx.oracle_fail("from_array (long sparse input): " + p, {"shape": list(shape), "distinct": vals, "op": "from_array"},
+                                cls="C07-from-array")
+            if ncol is not None and ncol >= 2:
+                prec = vals[1:] + [0]
+                ctx.rng.shuffle(prec)
+                ctx.hit("op:collapsed_scan")
+                res = G.make_index(a, 0).collapsed(list(prec))
+                for p in I.wf_problems(res):
+                    ctx.oracle_fail("collapsed (long sparse input): " + p, {"shape": list(shape), "precedence": prec, "op": "from_array"},
+                                    cls="C07-collapsed")
+                mask = np.array([ctx.rng.random() < 0.7 for _r in range(N)], dtype=bool)
+                ctx.hit("op:filtered_scan")
+                res = G.make_index(a, 0).filtered(mask, int(mask.sum()))
+                for p in I.wf_problems(res):
+                    ctx.oracle_fail("filtered (long sparse input): " + p, {"shape": list(shape), "op": "from_array"}, cls="C07-filtered")
     finally:
         ld.close()
 
